@@ -1,7 +1,7 @@
 (* C13 — Row and alias shorthands mean exactly their hand-written expansion.
    Statements only; proofs are in TM.LoaderTables, TM.SortLemmas, TM.ConvertLemmas,
    TM.ExpandLemmas and TM.SpellingLemmas. *)
-From TM Require Import Base Json RustOps Fancy Mapper Parser Convert SpecTables ConvertSpec LoaderTables ExpandLemmas.
+From TM Require Import Base Json RustOps Fancy Mapper Parser Convert SpecTables ConvertSpec Serde LoaderTables ExpandLemmas SpellingLemmas LoadedWf.
 From TMGen Require Import CharTable Rows Modifiers.
 
 (* The converter computes exactly the declarative expansion, for EVERY fancy
@@ -52,6 +52,79 @@ Proof.
   split; [exact physical_row_is_spec|]. split; [exact H1|]. split; [exact H2|exact is_modifier_is_spec].
 Qed.
 Print Assumptions C13_rows.
+
+(* The shorthand layout and its expansion written out by hand load to the same
+   basic layout: if a layout file j (any spelling, rows, aliases, repeat-only
+   entries) loads to L, then the file that lists the mappings of L one by one
+   with every key written out (Serde.to_json L: `from`, `to`, `absorbing` as
+   arrays of key names, the repeat spelled out) loads to L as well. *)
+Theorem C13_written_out : forall (j : json) (L : layout), load j = Ok L -> load (to_json L) = Ok L.
+Proof. exact saved_layout_reloads. Qed.
+Print Assumptions C13_written_out.
+
+(* Equivalent spellings parse to the same fancy layout (hence convert
+   identically).  (1) A bare value and the one-element array holding it are read
+   alike as `from` (key name or {"row":..}), as `to` of a single/alias mapping, as
+   `to` of a row mapping, as the `keys` of a Special repeat (= parse_single_to /
+   parse_row_to) and as `absorbing`.  (2) For EVERY JSON value j, rewriting every
+   such one-element array of every mapping to the bare value (unwrap_layout)
+   changes neither what parse_layout_from_json returns nor what loading returns. *)
+Theorem C13_spellings_singleton :
+  (forall v, is_arr v = false -> parse_from (JArr [v]) = parse_from v)
+  /\ (forall v, is_arr v = false -> parse_single_or_alias_to (JArr [v]) = parse_single_or_alias_to v)
+  /\ (forall v, is_arr v = false -> parse_row_to (JArr [v]) = parse_row_to v)
+  /\ (forall v, is_arr v = false -> parse_single_repeat_keys (JArr [v]) = parse_single_repeat_keys v)
+  /\ (forall v, is_arr v = false -> parse_row_repeat_keys (JArr [v]) = parse_row_repeat_keys v)
+  /\ (forall v, is_arr v = false -> parse_absorbing (Some (JArr [v])) = parse_absorbing (Some v)).
+Proof.
+  exact (conj parse_from_singleton (conj parse_single_or_alias_to_singleton (conj parse_row_to_singleton
+          (conj parse_single_to_singleton (conj parse_row_to_singleton parse_absorbing_singleton))))).
+Qed.
+Print Assumptions C13_spellings_singleton.
+
+Theorem C13_spellings : forall j : json,
+  parse_layout (unwrap_layout j) = parse_layout j /\ load (unwrap_layout j) = load j.
+Proof. exact (fun j => conj (parse_layout_unwrap j) (load_unwrap j)). Qed.
+Print Assumptions C13_spellings.
+
+(* Row names are read through their upper-case form and repeat names through
+   their lower-case form: two names with the same upper-case (lower-case) form
+   parse alike, and each of the five row names parses to its row in lower and
+   in upper case, "normal"/"disabled" in the three usual capitalisations. *)
+Theorem C13_spellings_names :
+  (forall t t', to_uppercase t = to_uppercase t' -> parse_row t = parse_row t')
+  /\ (forall t t', to_lowercase t = to_lowercase t' ->
+        parse_single_repeat (Some (JStr t)) = parse_single_repeat (Some (JStr t'))
+        /\ parse_row_repeat (Some (JStr t)) = parse_row_repeat (Some (JStr t')))
+  /\ map (fun s => parse_row (lit s)) ["`"; "1"; "q"; "Q"; "a"; "A"; "z"; "Z"]%string
+     = [Ok RowGrave; Ok Row1; Ok RowQ; Ok RowQ; Ok RowA; Ok RowA; Ok RowZ; Ok RowZ]
+  /\ map (fun s => parse_single_repeat (Some (JStr (lit s)))) ["normal"; "Normal"; "NORMAL"; "disabled"; "Disabled"; "DISABLED"]%string
+     = [Ok SRNormal; Ok SRNormal; Ok SRNormal; Ok SRDisabled; Ok SRDisabled; Ok SRDisabled]
+  /\ map (fun s => parse_row_repeat (Some (JStr (lit s)))) ["normal"; "Normal"; "NORMAL"; "disabled"; "Disabled"; "DISABLED"]%string
+     = [Ok WRNormal; Ok WRNormal; Ok WRNormal; Ok WRDisabled; Ok WRDisabled; Ok WRDisabled].
+Proof. exact names_either_case_full. Qed.
+Print Assumptions C13_spellings_names.
+
+(* a layout with aliases, a row, output-side aliases and a repeat-only entry, in
+   two spellings: same fancy layout, and the expansion written out *)
+Example C13_expand_example :
+  let j1 := JObj [(lit "mappings", JArr [
+             JObj [(lit "from", JStr (lit "LEFTSHIFT")); (lit "to", JStr (lit "@s"))];
+             JObj [(lit "from", JArr [JStr (lit "RIGHTSHIFT")]); (lit "to", JArr [JStr (lit "@s")])];
+             JObj [(lit "absorbing", JStr (lit "@s"));
+                   (lit "from", JArr [JStr (lit "@s"); JObj [(lit "row", JStr (lit "a"))]]);
+                   (lit "to", JArr [JObj [(lit "letters", JStr (lit "a B"))]])];
+             JObj [(lit "from", JArr [JStr (lit "RIGHTSHIFT"); JStr (lit "A")]); (lit "repeat", JStr (lit "DISABLED"))]])] in
+  unwrap_layout j1 = JObj [(lit "mappings", JArr [
+             JObj [(lit "from", JStr (lit "LEFTSHIFT")); (lit "to", JStr (lit "@s"))];
+             JObj [(lit "from", JStr (lit "RIGHTSHIFT")); (lit "to", JStr (lit "@s"))];
+             JObj [(lit "absorbing", JStr (lit "@s"));
+                   (lit "from", JArr [JStr (lit "@s"); JObj [(lit "row", JStr (lit "a"))]]);
+                   (lit "to", JObj [(lit "letters", JStr (lit "a B"))])];
+             JObj [(lit "from", JArr [JStr (lit "RIGHTSHIFT"); JStr (lit "A")]); (lit "repeat", JStr (lit "DISABLED"))]])]
+  /\ load j1 = Ok [ mkMapping [42; 30]%N [30]%N RNormal [42]%N; mkMapping [42; 32]%N [42; 48]%N RNormal [42]%N;
+                    mkMapping [54; 30]%N [30]%N RDisabled [54]%N; mkMapping [54; 32]%N [54; 48]%N RNormal [54]%N ].
+Proof. vm_compute. split; reflexivity. Qed.
 
 Example C13_tables_example :
   spec_char 43 = Some (true, 13%N) /\ spec_row RowA = [30; 31; 32; 33; 34; 35; 36; 37; 38; 39; 40]%N.
